@@ -146,6 +146,13 @@ class HasStates:
             if sm.reset_fast_poll:
                 sm.reset_fast_poll = False
                 self.setFastPoll(False)
+            if sm.next_task is None:
+                # nothing running and nothing requested: the status must be the final one. a stop
+                # request racing with the end of a run (or cancelling a pending start) would
+                # else leave 'stopping' or the busy status of the cancelled start behind
+                final = self.get_status(None)
+                if sm.status != final:
+                    sm.status = final
         self.read_status()
 
     def doPoll(self):
